@@ -26,7 +26,7 @@ from graphql import (
     is_required_input_field,
 )
 
-STRLIT_CLEAN = ["plain", "hash", "equals", "braces", "dquote_escaped", "backslash", "unicode_escape", "non_ascii", "empty"]
+STRLIT_CLEAN = ["plain", "hash", "equals", "braces", "dquote_escaped", "backslash", "unicode_escape", "non_ascii", "empty", "inner_whitespace"]
 STRLIT = {
     "plain": ['"hello world"', '"abc123"'],
     "hash": ['"a # not a comment"'],
@@ -37,6 +37,7 @@ STRLIT = {
     "unicode_escape": ['"snow \\u2603"'],
     "non_ascii": ['"żółć ☃ é"'],
     "empty": ['""'],
+    "inner_whitespace": ['"salt  and   pepper"', '"  leading and trailing  "', '"a    b"'],
     "single_quote": ['"it\'s"', '"\'quoted\'"'],
     "escape_n": ['"line1\\nline2"', '"tab\\there"'],
     "block": ['"""block string"""', '"""\n  multi\n  line "quoted"\n"""'],
